@@ -336,7 +336,15 @@ func cmdC04Replay(a args) {
 			}
 		})
 	}
-	for _, lx := range []string{"0", "007", "0x10", "0XfF", "1.", ".5", "0.50", "1e3", "1E+3", "1e-3", "12345678901234567890", "0xFFFFFFFFFFFFFFFF", "00.0e0"} {
+	for _, lx := range []string{"0", "007", "0x10", "0XfF", "1.", ".5", "0.50", "1e3", "1E+3", "1e-3", "12345678901234567890", "0xFFFFFFFFFFFFFFFF", "00.0e0",
+		// the edges of 63 / 64 bits and beyond, in every base and with leading zeros (an implementation may reject
+		// what it cannot represent, but must not emit another value)
+		"9223372036854775807", "9223372036854775808", "18446744073709551615", "18446744073709551616", "18446744073709551617",
+		"36893488147419103232", "1000000000000000000000000000000", "000018446744073709551616",
+		"0x7fffffffffffffff", "0x8000000000000000", "0x10000000000000000", "0x10000000000000001", "0x1ffffffffffffffff",
+		"0XFFFFFFFFFFFFFFFFFF", "0x00000000000000000000001", "0x0000000000000000ffffffffffffffff",
+		"0.1234567890123456789012345678901234567890", "123456789012345678901234567890.5", "1e19", "1e20", "1.8446744073709551616e19",
+		"4e-400", "1e308", "1e309", "9007199254740993", "9007199254740993.0"} {
 		checkNumber(res, lx)
 	}
 	res.write(out)
